@@ -117,7 +117,7 @@ def dec_model_res(line):
     return ("ok", (dec_ty(x[1][0]), dec_dv(x[1][1])))
 
 
-def impl_infer(headers):
+def impl_infer(headers, name="sheet"):
     """('ok', (ty, dv)) / ('err', kind) / ('oou', what) under CLI semantics.
     'oou' = the call met a type outside the universe of the mirror: in its result, or as the
     annotation of a column whose type model_from_headers_rec then discards (only the last entry
@@ -139,7 +139,7 @@ def impl_infer(headers):
     try:
         with warnings.catch_warnings():
             warnings.simplefilter("ignore")
-            r = run_cli_mode(mi.model_from_headers_rec, "sheet", list(headers))
+            r = run_cli_mode(mi.model_from_headers_rec, name, list(headers))
     finally:
         mi.type_from_string = orig
     if r[0] != "ok":
@@ -1068,6 +1068,7 @@ def run(ctx):
     # -------------------------------------------------- 4. histories on long-lived objects (c18_hist.py)
     import c18_hist
     c18_hist.run_histories(ctx, by_name)
+    c18_hist.run_call_sequences(ctx, by_name)
 
     v.coverage["distinct_nontrivial"] = len(nontrivial)
     v.coverage["rule"] = (
@@ -1153,6 +1154,9 @@ def replay(rep):
     if fn == "history":
         import c18_hist
         return c18_hist.replay_history(r)
+    if fn == "calls":
+        import c18_hist
+        return c18_hist.replay_calls(r)
     if fn == "repeat":
         return impl_infer(r["headers"]) == impl_infer(r["headers"])
     return True
